@@ -38,6 +38,41 @@ Proof. intros [] ; try reflexivity. apply idx_of_num_wf. Qed.
 
 
 (* ------------------------------------------------------------------------------------------ *)
+(** * Iterator guards: [>=] is total for EVERY cursor/length relation, [==] only while
+      cursor <= len - which a vec that shrinks under a live iterator does not keep *)
+
+Theorem indexed_iter_next_ge_total : forall site cursor len,
+    is_panic (indexed_iter_next site CmpGe cursor len) = false.
+Proof.
+  intros site cursor len. unfold indexed_iter_next, iter_at_end.
+  destruct (len <=? cursor)%N eqn:E; [reflexivity|].
+  apply N.leb_gt in E. apply N.ltb_lt in E. rewrite E. reflexivity.
+Qed.
+
+(* past the end the answer is the sentinel, again and again *)
+Theorem indexed_iter_next_ge_sentinel : forall site cursor len, (len <= cursor)%N ->
+    indexed_iter_next site CmpGe cursor len = NOk RKStop.
+Proof.
+  intros site cursor len H. unfold indexed_iter_next, iter_at_end.
+  apply N.leb_le in H. rewrite H. reflexivity.
+Qed.
+
+Theorem indexed_iter_next_eq_bounded : forall site cursor len, (cursor <= len)%N ->
+    is_panic (indexed_iter_next site CmpEq cursor len) = false.
+Proof.
+  intros site cursor len H. unfold indexed_iter_next, iter_at_end.
+  destruct (cursor =? len)%N eqn:E; [reflexivity|].
+  apply N.eqb_neq in E. assert (L : (cursor <? len)%N = true) by (apply N.ltb_lt; lia).
+  rewrite L. reflexivity.
+Qed.
+
+(* [var xs = [1, 2, 3, 4]; for v in xs { if v == 3 { xs.pop(); xs.pop(); } }]: cursor 3, length 2 *)
+Theorem indexed_iter_next_eq_refuted : exists cursor len,
+    (len < cursor)%N /\ indexed_iter_next "elements[current]" CmpEq cursor len = NPanic "elements[current]".
+Proof. exists 3%N, 2%N. split; [reflexivity | vm_compute; reflexivity]. Qed.
+Print Assumptions indexed_iter_next_ge_total.
+
+(* ------------------------------------------------------------------------------------------ *)
 (** * natives_total *)
 
 Definition args_wf (l : list akind) : Prop := forallb ak_wf l = true.
@@ -128,7 +163,7 @@ Lemma np_set_item : forall (inf : bool) (recv : akind) (args : list akind) (Hwf 
 Ltac recv_cases Hd :=
   match goal with
   | |- context [run_native _ _ ?recv _] =>
-    destruct recv as [| | | | | | | | | | | | |k| |]; try discriminate Hd;
+    destruct recv as [| | | | | | | | | | | | |k cur ln| |]; try discriminate Hd;
     try (destruct k; try discriminate Hd)
   end.
 
@@ -147,7 +182,9 @@ Proof.
     try (cbn [run_native]; reflexivity);
     try (cbn [run_native]; apply cna_np; intros _; reflexivity);
     recv_cases Hd; cbn [run_native];
-    solve [ np_string | np_map0 | np_mapk | apply cna_np; intros _; reflexivity ].
+    solve [ np_string | np_map0 | np_mapk | apply cna_np; intros _; reflexivity
+          | apply cna_np; intros _; apply indexed_iter_next_ge_total
+          | apply cna_np; intros _; destruct (cur =? ln)%N; reflexivity ].
 Qed.
 Print Assumptions natives_total.
 
@@ -177,7 +214,10 @@ Example natives_total_ex :
   /\ run_native false Fiber_call (AKFiber 0 false false 2) [AKNil]
      = NErr ERuntime "Cannot call a finished fiber."
   /\ run_native false Fiber_yield AKClass [] = NErr ERuntime "Cannot yield from module-level code."
-  /\ run_native false Vec_pop (AKVec 0) [] = NErr ERuntime "Cannot pop from empty Vec instance.".
+  /\ run_native false Vec_pop (AKVec 0) [] = NErr ERuntime "Cannot pop from empty Vec instance."
+  /\ run_native false VecIter_next (AKIter ItVec 3 2) [] = NOk RKStop
+  /\ run_native false VecIter_next (AKIter ItVec 1 2) [] = NOk RKAny
+  /\ run_native false TupleIter_next (AKIter ItTuple 2 2) [] = NOk RKStop.
 Proof. vm_compute. repeat split. Qed.
 
 (* ------------------------------------------------------------------------------------------ *)
